@@ -81,6 +81,11 @@ impl TryReadFromBytes for SequenceNumberSet {
         if num_bits > 256 {
             return Err(RtpsMessageError::InvalidData);
         }
+        // every sequence number the set can denote (base ..= base + num_bits - 1) must be representable,
+        // otherwise the accessor set() overflows
+        if num_bits > 0 && base.checked_add(num_bits as i64 - 1).is_none() {
+            return Err(RtpsMessageError::InvalidData);
+        }
         let number_of_bitmap_elements = num_bits.div_ceil(32) as usize; //In standard referred to as "M"
         let mut bitmap = [0; 8];
         for bitmap_i in bitmap.iter_mut().take(number_of_bitmap_elements) {
